@@ -3,7 +3,7 @@
 fn main() {
     ecverif::microrun::main_for(
         ecverif::microrun::Profile { key: "c02", drops: false, timeouts: false, tx_fail: true, rx_noise: true, only: &[] },
-        150,
+        300,
         4000,
     );
 }
